@@ -618,10 +618,15 @@ def _call_closure(ip, st, ci, clo, args):
     body = cr.by_path.get(clo[1])
     if body is None:
         raise Undecided("closure body %s" % clo[1])
-    st.heap[("clo", id(clo))] = ("tuple", clo[2]) if clo[2] else vunit()
-    a = [clo] + list(args)
+    self_arg = clo
+    t1 = cr.types[body["locals"][1]["ty"]]
+    if t1["k"] == "ref":
+        cell = ("clo", len(st.heap))
+        st.heap[cell] = clo
+        self_arg = vref(Target(cell))
+    a = [self_arg] + list(args)
     if body["arg_count"] == 2 and len(args) != 1:
-        a = [clo, ("tuple", list(args))]
+        a = [self_arg, ("tuple", list(args))]
     return ip.inline(st, cr, body, a, ci["fr"].depth + 1)
 
 
